@@ -99,6 +99,17 @@ CLAIMED = {
         note="Lean kernel; standard axioms; hand model of to_sax; xml.sax AttributesNSImpl semantics assumed.",
         technique="Lean 4 proof (composition with C11) + differential correspondence",
         design="6/C19"),
+    "C15": dict(
+        category="proof",
+        text="Lean theorem C15_inject over the hand model of inject_meta_charset (tied by op inject): for every stream with one "
+             "<head>...</head> pair and no other tag named head, the output is the input with every meta declaration rewritten "
+             "to the encoding, exactly one <meta charset> injected as first child of head iff no declaration occurs before "
+             "</head>, and every other token unchanged and in order (closed form, all token lists). The byte-level clauses "
+             "(bytes declare the encoding, unencodable characters as references, re-parse gives the same tree) depend on "
+             "Python codecs and the prescan and are decided by search on the real code over encodings x head layouts (partial).",
+        note="Lean kernel; standard axioms; hand model tied by correspondence; codecs/webencodings not modelled.",
+        technique="Lean 4 proof (closed form of the filter) + differential correspondence + byte round-trip search",
+        design="6/C15"),
 }
 
 PENDING_REASON = "check under construction in this round: model/theorems not yet committed (see DESIGN section 8); not claimed"
